@@ -152,6 +152,18 @@ func (e *Engine) override(fn *ssa.Function) *override {
 				if fn.Name() == "Fatal" || fn.Name() == "Fatalf" || fn.Name() == "Fatalln" || fn.Name() == "FatalS" {
 					panic(targetPanic{msg: "klog.Fatal: process exits"})
 				}
+				if fn.Name() == "InfoS" && len(in.logGates) > 0 && len(args) > 0 {
+					// structured log lines named by zzverif.GateLogs are scheduling points (natively a
+					// klog filter waits there for the thread's turn)
+					if msg, ok := args[0].(string); ok {
+						for _, sub := range in.logGates {
+							if strings.Contains(msg, sub) {
+								in.gateAt("k:" + msg)
+								break
+							}
+						}
+					}
+				}
 				return in.zero(fn.Signature.Results())
 			}}
 		}
